@@ -26,6 +26,8 @@ structure LOutWF0 (ko : KeyOps) (s : LOutScope) : Prop where
   unknownNodup : (s.base.unknown.map Prod.fst).Nodup
   lf : ∀ e ∈ s.lf, lenOK e.1.len e.2 = true ∧ Fits e.2
   asset : (lget s.lf .asset).isSome = true
+  /-- (since fix `d53`) the scope keeps no nonce of a global transaction beside its fields -/
+  txNonce : s.txNonce = none
 
 theorem LOutScope.addPair_base' (ko : KeyOps) (s : LOutScope) (k v : Bytes) (hk : isLiquidKey k = false)
     (h3 : k ≠ [0x03]) :
@@ -185,7 +187,12 @@ theorem LOutScope.addPairs_pairs0 (ko : KeyOps) (ver : Option Nat) (hv : ver ≠
     conv => lhs; rw [hord]
     simp [ha]
   rw [e]
-  rfl
+  have hn := h.txNonce
+  cases s with
+  | mk b vc lf tn =>
+    simp only at hn
+    subst hn
+    rfl
 
 theorem LOutScope.pairsL_wf0 (ko : KeyOps) (ver : Option Nat) (s : LOutScope) (h : LOutWF0 ko s) :
     ∀ kv ∈ s.pairsL ver, KVWF kv := by
@@ -299,14 +306,42 @@ theorem LPset.tx_shape (p : LPset) (t : LTx) (h : p.tx = some t) :
     · simp at hs
   · simp at h
 
-theorem lglobalFold_tx_step (t : LTx) (hwf : WF t) (hu : LUnsigned t) (ver : Option Nat) (unk rest : List KV) :
+/-- the transaction `PSET.tx` builds carries no witness (so the check of fix `b4` accepts it) -/
+theorem LPset.tx_noWitness (p : LPset) (t : LTx) (h : p.tx = some t) : LTx.hasWitness t = false := by
+  unfold LPset.tx at h
+  split at h
+  · rename_i vin vout hi ho
+    simp at h; subst h
+    simp only [LTx.hasWitness, Bool.or_eq_false_iff, List.any_eq_false]
+    constructor
+    · intro i hi'
+      have := optAll_mem _ _ hi i hi'
+      simp only [List.mem_map] at this
+      obtain ⟨s, _, hs⟩ := this
+      unfold LInScope.vin at hs
+      split at hs
+      · simp at hs; subst hs; simp [LInWitness.isEmpty]
+      · simp at hs
+    · intro o ho'
+      have := optAll_mem _ _ ho o ho'
+      simp only [List.mem_map] at this
+      obtain ⟨s, _, hs⟩ := this
+      unfold LOutScope.vout at hs
+      simp only [] at hs
+      split at hs
+      · simp at hs; subst hs; simp [LOutWitness.isEmpty]
+      · simp at hs
+  · simp at h
+
+theorem lglobalFold_tx_step (t : LTx) (hwf : WF t) (hu : LUnsigned t) (hnw : LTx.hasWitness t = false)
+    (ver : Option Nat) (unk rest : List KV) :
     lglobalFold none ver unk (([0x00], LTx.ser t) :: rest) = lglobalFold (some t) ver unk rest := by
   have h1 := LTx.parse_ser t hwf
   have h2 : (t.vin.any fun i => !i.scriptSig.isEmpty) = false := by
     rw [List.any_eq_false]
     intro i hi
     simp [hu i hi]
-  simp [lglobalFold, h1, h2]
+  simp [lglobalFold, h1, h2, hnw]
 
 /-- well-formed version-0 PSET object. `tx`: the object carries its transaction — it is well-formed, fits the framing,
     agrees with the stored version / locktime — and the seeds `read_from` derives from that transaction are the seeds of
@@ -360,7 +395,7 @@ theorem LPset.parse_ser_v0 (ko : KeyOps) (p : LPset) (h : LPsetWF0 ko p) :
   have hgf : lglobalFold none none []
       (([0x00], LTx.ser t) :: (xp ++ optKV [0xfb] (p.version.map (leN 4)) ++ p.unknown))
       = some (some t, p.version, xp ++ p.unknown) := by
-    rw [lglobalFold_tx_step t twf tun, List.append_assoc,
+    rw [lglobalFold_tx_step t twf tun (LPset.tx_noWitness p t ht), List.append_assoc,
       lglobalFold_unknown_seg _ _ _ _ _ (fun kv hkv => (x1 kv hkv).2.1) (by simpa using x2),
       lglobalFold_ver_step _ _ hver]
     have := lglobalFold_unknown_seg p.unknown (some t) p.version ([] ++ xp) []
